@@ -471,6 +471,10 @@ func (c *Ctx) builtin(b *ssa.Builtin, args []Value) Value {
 			d.back.e[d.off+k] = src[k]
 		}
 		return BV(uint64(n), 64)
+	case "recover":
+		// deferred functions only run on normal return in this engine (a panic
+		// ends the path and is reported), so there is never a panic to recover
+		return Iface{}
 	case "delete":
 		m := args[0].(*Map)
 		if m == nil {
